@@ -22,6 +22,7 @@ from .. import calllog
 from ..region import *
 from ..core import guarded
 from .c03 import RM, RE, BRL
+from ..inventory import KNOWN
 
 READT = RE + 'RE'
 HCMAKE = '<regular_expressions::RE as store::HashConsed>::make'
@@ -267,6 +268,8 @@ def r5_order(ctx):
                 dedup_bbs.append(bb)
             elif nm.endswith('Index<I>>::index') or nm.endswith('regular_expressions::contains') or nm.endswith('IndexMut<I>>::index_mut'):
                 read_bbs.append(bb)
+            elif cr.fn(nm) is not None and nm not in KNOWN:
+                read_bbs.append(bb)     # a helper extracted later works on the operands: it counts as reading them
         ok = len(sort_bbs) == 1 and len(dedup_bbs) == 1 and len(read_bbs) >= 2
         ctx.obligation(ok)
         (ctx.ok if ok else ctx.violation)('C07.R5', 'C07.R5/simplify_set_operation/sort-dedup-and-reads-found', fn.path, fn.site(), {'sort': sort_bbs, 'dedup': dedup_bbs, 'reads': len(read_bbs)}, cfg)
